@@ -305,3 +305,130 @@ def invariant(ctx, rep, rule):
             rep.violation(rule, "RPSPolicer.get_timeout|slot-invariant:" + k, failed[k], where, obligation=True)
         elif k in names:
             rep.ok(rule, "RPSPolicer.get_timeout|slot-invariant:" + k, "%s on all %d feasible cases" % (names[k], proved[k]), where)
+
+
+# ----------------------------------------------------------------------------- the interval itself
+_BASE = r"int\((?:NS|1000000000(?:\.0)?|1e9) //? \(?rps\)?\)"
+
+
+class _Ti:
+    """Integer expressions over d0 = int(NS / rps) and constants: + - , * and // and % by positive constants, `a or b`,
+    min / max.  alts() -> [(Lin, [constraints])]."""
+
+    def __init__(self, consts):
+        self.consts = consts
+        self.n = 0
+
+    def fresh(self, p):
+        self.n += 1
+        return Lin.sym("%s%d" % (p, self.n))
+
+    def alts(self, node):
+        if isinstance(node, ast.Constant) and isinstance(node.value, int) and not isinstance(node.value, bool):
+            return [(Lin.const(node.value), [])]
+        if isinstance(node, ast.Name):
+            if node.id == "d0":
+                return [(Lin.sym("d0"), [])]
+            v = self.consts.get(node.id)
+            if isinstance(v, int) and not isinstance(v, bool):
+                return [(Lin.const(v), [])]
+            if isinstance(v, float) and v == int(v):
+                return [(Lin.const(int(v)), [])]
+            raise Untranslatable(node.id)
+        if isinstance(node, ast.Call) and ast.unparse(node.func) == "int" and len(node.args) == 1:
+            return self.alts(node.args[0])
+        if isinstance(node, ast.Call) and ast.unparse(node.func) in ("min", "max") and len(node.args) == 2:
+            f = ast.unparse(node.func)
+            out = []
+            for a, ca in self.alts(node.args[0]):
+                for b, cb in self.alts(node.args[1]):
+                    lo, hi = (a, b) if f == "min" else (b, a)
+                    out.append((a, ca + cb + [lo - hi]))
+                    out.append((b, ca + cb + [hi - lo]))
+            return out
+        if isinstance(node, ast.BoolOp) and isinstance(node.op, ast.Or) and len(node.values) == 2:
+            out = []
+            for a, ca in self.alts(node.values[0]):
+                out.append((a, ca + [Lin.const(1) - a]))      # a >= 1: truthy
+                out.append((a, ca + [a + 1]))                  # a <= -1: truthy
+                for b, cb in self.alts(node.values[1]):
+                    out.append((b, ca + cb + [a, -a]))         # a == 0: the other operand
+            return out
+        if isinstance(node, ast.UnaryOp) and isinstance(node.op, ast.USub):
+            return [(-a, c) for a, c in self.alts(node.operand)]
+        if isinstance(node, ast.BinOp):
+            if isinstance(node.op, (ast.Add, ast.Sub)):
+                return [((a + b) if isinstance(node.op, ast.Add) else (a - b), ca + cb) for a, ca in self.alts(node.left) for b, cb in self.alts(node.right)]
+            if isinstance(node.op, ast.Mult):
+                out = []
+                for a, ca in self.alts(node.left):
+                    for b, cb in self.alts(node.right):
+                        if not b.t:
+                            out.append((a.scale(b.c), ca + cb))
+                        elif not a.t:
+                            out.append((b.scale(a.c), ca + cb))
+                        else:
+                            raise Untranslatable(ast.unparse(node))
+                return out
+            if isinstance(node.op, (ast.FloorDiv, ast.Mod)):
+                out = []
+                for a, ca in self.alts(node.left):
+                    for b, cb in self.alts(node.right):
+                        if b.t or b.c <= 0:
+                            raise Untranslatable(ast.unparse(node))
+                        q = self.fresh("q")
+                        cons = ca + cb + [q.scale(b.c) - a, a - q.scale(b.c) - (b.c - 1)]
+                        out.append((q if isinstance(node.op, ast.FloorDiv) else a - q.scale(b.c), cons))
+                return out
+        raise Untranslatable(ast.unparse(node))
+
+
+def interval(ctx, rep, rule):
+    """The interval stored by RPSPolicer.__init__ is int(NS / rps) itself: any rounding of it (to a grid, to a minimum, to a
+    maximum) makes the limiter faster than rps when it shortens the interval and delays a request by more than 1/rps when
+    it lengthens it.  Decided in linear integer arithmetic over d0 = int(NS / rps) >= 1 (exact simplex of gsa/lin)."""
+    import re
+    py = ctx.py
+    ps = R.paths(ctx, rep, rule, "policer", "RPSPolicer", "__init__")
+    if not ps:
+        return
+    node = R.fn_node(ctx, "policer", "RPSPolicer", "__init__")
+    where = py.loc("policer", node)
+    consts = py.module_consts("policer")
+    seen = set()
+    for p in ps:
+        if p.done == "raise":
+            continue
+        d = [e.value for i, e in R.stores(p, "self._delta")]
+        if not d or d[-1] in seen:
+            continue
+        seen.add(d[-1])
+        v = re.sub(_BASE, "d0", d[-1])
+        key = "RPSPolicer.__init__|interval is int(NS / rps)"
+        if v == "d0":
+            rep.ok(rule, key, "self._delta = int(NS / rps)", where, obligation=True)
+            continue
+        if "d0" not in v:
+            continue   # another formula altogether: C19.core speaks about it
+        try:
+            alts = _Ti(consts).alts(ast.parse(v, mode="eval").body)
+        except (Untranslatable, SyntaxError) as e:
+            rep.inconclusive(rule, key, "self._delta = %s: outside the linear fragment (%s)" % (d[-1], e), where)
+            continue
+        d0 = Lin.sym("d0")
+        worst = None
+        for a, cons in alts:
+            lo = {"d0": 1}
+            if lp_max(Lin.const(0), cons, lo, {}) is None:
+                continue
+            for name, expr in (("shorter", d0 - a), ("longer", a - d0)):
+                m = lp_max(expr, cons, lo, {})
+                if m is not None and (m == INF or m > 0):
+                    worst = worst or (name, m)
+        if worst is None:
+            rep.ok(rule, key, "self._delta = %s equals int(NS / rps)" % d[-1], where, obligation=True)
+        else:
+            rep.violation(rule, key, "self._delta = %s can be %s than int(NS / rps) (by %s ns): the limiter then %s" % (
+                d[-1], worst[0], "any amount of" if worst[1] == INF else worst[1],
+                "releases requests faster than rps" if worst[0] == "shorter" else "delays a request by more than one interval 1/rps"), where, obligation=True)
+
